@@ -11,13 +11,17 @@
    every abort (nothing is ever rewritten except Do->Hold, Doing->Abort, Done->Undo).
    Also proved: the model's fuel bounds are never hit (C01_abort_fuel), no task is stranded (C01_no_deadlock), the
    failing task ends in Error, a settled change with a failed task reports Error.
-   NOT PROVED (monitored on every observed history instead, see notes/C01.md): the closure sandwich (which tasks are
-   aborted: lower closure R' must be mapped, nothing outside the upper closure R is touched), settling (liveness: that
-   finitely many Ensure/Finish events reach an all-ready state), and the outcome table of the settled state. *)
+   Also proved: nothing outside the upper closure R is touched by an abort; only started work is undone; the settled
+   state (no tomb, status Error iff a handler failed).
+   Also proved: C01_settles_error (liveness, bounded rounds); the abort set exactly when abortLanes does not nest.
+   NOT PROVED (monitored on every observed history instead, see notes/C01.md): the abort set between R' and R when
+   abortLanes nests (order dependent; C01_sandwich_bounds_not_tight shows neither bound is tight). *)
 From Coq Require Import List NArith ZArith Bool Lia.
 Import ListNotations.
 Require Import V.models.TaskEngine V.proofs.TaskEngineProofs V.proofs.TaskEngineStatus V.proofs.TaskEngineReady
-               V.proofs.TaskEngineDoing V.proofs.TaskEngineFuel V.proofs.TaskEngineLive V.proofs.TaskEnginePass.
+               V.proofs.TaskEngineDoing V.proofs.TaskEngineFuel V.proofs.TaskEngineLive V.proofs.TaskEnginePass V.proofs.TaskEngineErr V.proofs.TaskEngineSettled
+               V.proofs.TaskEngineStarted V.proofs.TaskEngineClosure V.proofs.TaskEngineLower V.proofs.TaskEngineExact
+               V.proofs.TaskEngineSettle.
 
 (* reverse-order undo: in every execution, whenever an undo handler is freshly started (Undo->Undoing), every task
    that waited on it had a ready status (Done/Undone/Hold/Error) at that instant, i.e. had finished or never ran *)
@@ -108,13 +112,143 @@ Theorem C01_failed_task_ends_in_error : forall (s : state) (t : nat),
 Proof. exact finish_err_sets_error. Qed.
 Print Assumptions C01_failed_task_ends_in_error.
 
-(* C01_settles_error, PARTIAL: the safety half - whenever every task is ready and some task is in Error, the change
-   reports Error. The liveness half (every history can be extended to such a state) is not proved; C01_no_deadlock
-   is the progress step such a measure argument needs. *)
-Theorem C01_settled_status_error_partial : forall l : list task,
-  all_ready l = true -> has_status l Error = true -> change_status l = Error.
-Proof. exact settled_error_status. Qed.
-Print Assumptions C01_settled_status_error_partial.
+(* C01_settles_error, safety half IN FULL (replaces C01_settled_status_error_partial): whenever every task is ready
+   the change reports Error iff some task is in Error ... *)
+Theorem C01_settled_status_error : forall l : list task,
+  all_ready l = true -> (change_status l = Error <-> has_status l Error = true).
+Proof. exact settled_error_iff. Qed.
+Print Assumptions C01_settled_status_error.
+
+(* ... and, over every tame history on a non-empty closed graph, a settled state has no tomb, is flagged ready, and
+   reports Error iff some handler returned an error (failed_of lists those tasks); Err names exactly them. Still NOT
+   proved: the liveness half (that finitely many Ensure/Finish events reach a settled state). *)
+Theorem C01_settled_error_iff_handler_failed : forall (g : list tdesc) (es : list event),
+  g <> [] -> closed g -> tame (init_state g) es ->
+  let s := run_events (init_state g) es in
+  all_ready (tasks s) = true ->
+  running s = [] /\ cready s = true /\
+  (change_status (tasks s) = Error <-> failed_of (init_state g) es <> []) /\
+  (forall u, In u (err_tasks (tasks s)) <-> In u (failed_of (init_state g) es)).
+Proof. exact settled_error_iff_failed. Qed.
+Print Assumptions C01_settled_error_iff_handler_failed.
+
+(* a settled state (every task ready) of the invariant has no tomb and every task is Done, Undone, Hold or Error:
+   no task is left in Do / Doing / Abort / Undo / Undoing / Wait *)
+Theorem C01_settled_nothing_pending : forall s : state,
+  inv s -> all_ready (tasks s) = true ->
+  running s = [] /\ forall u, st s u = Done \/ st s u = Undone \/ st s u = Hold \/ st s u = Error.
+Proof. exact settled_nothing_pending. Qed.
+Print Assumptions C01_settled_nothing_pending.
+
+(* only started work is undone: in every history with user aborts on unready changes only, a task whose status is
+   neither Do nor Hold has had its do handler started, and every start of an undo handler is preceded in the start log
+   (most recent first) by a start of the do handler of the same task *)
+Theorem C01_undo_only_of_started_tasks : forall (g : list tdesc) (es : list event),
+  g <> [] -> guarded (init_state g) es ->
+  let s := run_events (init_state g) es in
+  (forall t, st s t <> Do -> st s t <> Hold -> started_in (slog s) t) /\ undo_after_do (slog s).
+Proof. exact undo_only_of_started. Qed.
+Print Assumptions C01_undo_only_of_started_tasks.
+
+(* upper half of the closure sandwich, for EVERY state and every lane list: Change.AbortLanes changes no task outside
+   R, the least set containing the tasks with a lane in the aborted-lane set, closed under halt edges, the aborted-lane
+   set growing by all lanes of members (inR / laneR). Tasks of independent lanes that do not wait, even transitively,
+   on anything aborted keep their statuses. *)
+Theorem C01_abort_untouched_outside_closure : forall (s : state) (L0 : list nat) (u : nat),
+  ~ inR s L0 u -> st (abort_lanes_top s L0) u = st s u.
+Proof. exact abort_lanes_top_outside. Qed.
+Print Assumptions C01_abort_untouched_outside_closure.
+
+(* the same on the error path of the task runner *)
+Theorem C01_error_path_untouched_outside_closure : forall (s : state) (t u : nat),
+  panicked s = false -> memn t (running s) = true -> u <> t ->
+  ~ inR (remove_running s t) (lanes_of (get s t)) u -> st (finish s t OErr) u = st s u.
+Proof. exact finish_err_outside. Qed.
+Print Assumptions C01_error_path_untouched_outside_closure.
+
+(* lower half of the closure sandwich, for EVERY state (whose fuel flag is clear, as in every execution by
+   C01_abort_fuel) and every lane list: after Change.AbortLanes every task of R' - the tasks all of whose lanes are
+   aborted, closed under halt edges (lowR) - is no longer live: what had completed is in Undo, what was running in
+   Abort, what had not started on Hold (lv = the task's effective status is Do / Doing / Done). With
+   C01_abort_untouched_outside_closure this is the sandwich  R' <= aborted <= R;  for graphs in which every task has
+   one lane the two closures coincide on the tasks of the aborted lanes. What is NOT proved is the exact behaviour
+   between R' and R (the healthy-lane exemption for multi-lane tasks), which the monitor's spared_spec pins. *)
+Theorem C01_abort_lower_closure_dead : forall (s : state) (L0 : list nat) (u : nat),
+  oof s = false -> lowR s L0 u -> lv (abort_lanes_top s L0) u = false.
+Proof. exact abort_lanes_top_lower. Qed.
+Print Assumptions C01_abort_lower_closure_dead.
+
+(* the same on the error path: everything in the lower closure of the failed task's lanes is put on hold / aborted /
+   set to undo (the failed task itself goes to Error) *)
+Theorem C01_error_path_lower_closure_dead : forall (s : state) (t u : nat),
+  panicked s = false -> oof s = false -> memn t (running s) = true -> u <> t ->
+  lowR (remove_running s t) (lanes_of (get s t)) u -> lv (finish s t OErr) u = false.
+Proof. exact finish_err_lower. Qed.
+Print Assumptions C01_error_path_lower_closure_dead.
+
+(* non-vacuity: chain 0 <- 1 in the default lane: both tasks are in the lower closure of lane 0 *)
+Example C01_lower_closure_nonvacuous :
+  let s := init_state [([], [], true); ([], [0], true)] in lowR s [0] 0 /\ lowR s [0] 1.
+Proof. exact lower_example. Qed.
+
+(* The abort set EXACTLY, when no nested abortLanes call happens. A1 (inA1) is the set of lane tasks that abortLanes
+   selects - the tasks with a lane in the kill list that the healthy-lane exemption does not spare (select_abort: a
+   lane task is spared iff one of its lanes outside the kill list has been given at least one opinion and only live
+   ones, an opinion coming from every task that lists that lane before any killed lane) - closed under halt edges.
+   If every task of A1 has all its lanes in the kill list (then abortTasks finds no new lane and makes no nested call),
+   exactly A1 is aborted: nothing outside A1 changes ... *)
+Theorem C01_abort_exact_outside : forall (s : state) (L0 : list nat),
+  (forall t, inA1 s L0 t -> forall x, In x (lanes_of (get s t)) -> In x L0) ->
+  forall u, ~ inA1 s L0 u -> st (abort_lanes_top s L0) u = st s u.
+Proof. exact abort_exact_outside. Qed.
+Print Assumptions C01_abort_exact_outside.
+
+(* ... and every task of A1 is no longer live afterwards (this half holds with nesting too) *)
+Theorem C01_abort_exact_inside : forall (s : state) (L0 : list nat) (u : nat),
+  oof s = false -> inA1 s L0 u -> lv (abort_lanes_top s L0) u = false.
+Proof. exact abort_exact_inside. Qed.
+Print Assumptions C01_abort_exact_inside.
+
+(* With nesting (a task reached through a halt edge brings in a lane that was not killed) the nested abortLanes call
+   judges lane health on statuses the outer call has already rewritten, so the abort set depends on the order of the
+   rewriting and is not the fixpoint of a monotone operator; the sandwich R' <= aborted <= R is then the strongest
+   order-independent statement, and NEITHER bound is tight - `refuted`-style witness: S in lanes 1 and 2, F in lane 1,
+   K in lane 2. S is in R but not in R' for the kill list [1]. With K live S is spared (upper bound not tight); with
+   K dead (Hold) S is aborted, Do -> Hold (lower bound not tight). *)
+Theorem C01_sandwich_bounds_not_tight :
+  (inR sw_live [1] 0 /\ ~ lowR sw_live [1] 0 /\ st (abort_lanes_top sw_live [1]) 0 = st sw_live 0) /\
+  (inR sw_dead [1] 0 /\ ~ lowR sw_dead [1] 0 /\ st sw_dead 0 = Do /\ st (abort_lanes_top sw_dead [1]) 0 = Hold).
+Proof. exact sandwich_not_tight. Qed.
+Print Assumptions C01_sandwich_bounds_not_tight.
+
+(* C01_settles_error (liveness + status): see C03_settles for the wording. After settle_bound n rounds every task is
+   ready, nothing is pending, the change is flagged ready and reports Error iff some task is in Error. *)
+Theorem C01_settles_error : forall (g : list tdesc) (rk : nat -> nat) (es : list event),
+  g <> [] -> closed g -> (forall t w, In w (waits_g g t) -> rk w < rk t) ->
+  tame (init_state g) es ->
+  let s0 := run_events (init_state g) es in
+  (forall t, st s0 t <> Wait) -> (forall t, t_at (get s0 t) = 0%Z) ->
+  forall (oc0 : nat -> bool) (rl : list (list nat * (nat -> bool))),
+  settle_bound (length g) <= length rl ->
+  (forall r, In r rl -> forall t, t < length g -> In t (fst r)) ->
+  let sF := iter_rounds rl (finish_all s0 oc0) in
+  all_ready (tasks sF) = true /\ running sF = [] /\ cready sF = true /\
+  (change_status (tasks sF) = Error <-> has_status (tasks sF) Error = true).
+Proof. exact settles. Qed.
+Print Assumptions C01_settles_error.
+
+(* non-vacuity: two tasks in lanes 1 and 2: aborting lane 1, task 1 is outside R and task 0 inside *)
+Example C01_closure_nonvacuous :
+  let s := init_state [([1], [], true); ([2], [], true)] in ~ inR s [1] 1 /\ inR s [1] 0.
+Proof. exact outside_example. Qed.
+
+(* non-vacuity: the start log of a history with a failure: undo 0 after do 1 after do 0 *)
+Example C01_started_nonvacuous :
+  let g := [([], [], true); ([], [0], true)] in
+  let es := [Ensure [0;1]; Finish 0 OOk; Ensure [0;1]; Finish 1 OErr; Ensure [0;1]] in
+  guarded (init_state g) es /\
+  map (fun r => (sr_t r, sr_undo r)) (slog (run_events (init_state g) es)) = [(0, true); (1, false); (0, false)].
+Proof. exact started_example. Qed.
 
 (* non-vacuity of the hypotheses of C01_no_deadlock: a tame history on an acyclic closed graph that reaches a state
    with no tomb in which a task waits in Undo and the Ensure loop body fires for it *)
